@@ -185,6 +185,13 @@ MUTATIONS += [
     dict(id="C09-apply-expired-kept-by-rules", prop="C09", file=FG, old="                } else if sn.must_delete(now) {\n                    (false, vec![\"snapshot\"])", new="                } else if sn.must_delete(now) && iter.peek().is_some() {\n                    (false, vec![\"snapshot\"])"),
 ]
 
+# ---- C08 RawPacker
+MUTATIONS += [
+    dict(id="C08-raw-finalize-skips-save", prop="C08", file=PK, old="        if !self.basic.is_empty() {\n            self.save()?;\n        }\n\n        self.file_writer.take()", new="        if self.basic.is_empty() {\n            self.save()?;\n        }\n\n        self.file_writer.take()"),
+    dict(id="C08-raw-add-drops-open-pack", prop="C08", file=PK, old="        if self.basic.should_save() {\n            self.save()?;\n        }\n        Ok(())", new="        if self.basic.should_save() {\n            _ = self.basic.take_data();\n        }\n        Ok(())"),
+    dict(id="C08-raw-writer-closed-before-flush", prop="C08", file=PK, old="        if !self.basic.is_empty() {\n            self.save()?;\n        }\n\n        self.file_writer.take().unwrap().finalize()?;\n", new="        let writer = self.file_writer.take().unwrap();\n        if !self.basic.is_empty() {\n            self.save()?;\n        }\n\n        writer.finalize()?;\n"),
+]
+
 HARMLESS = [
     dict(id="H-C05-trees-symlink-continue", prop="C05", file=CK, old="        for node in tree.nodes {\n            match node.node_type {", new="        for node in tree.nodes {\n            if node.node_type == NodeType::Symlink {\n                continue;\n            }\n            match node.node_type {"),
 ]
